@@ -264,3 +264,27 @@ Theorem accepted_all_state_sound {L : Type} (l : list (L * list FromDict.vdef)) 
 Proof.
   intros H lbl ds Hin. rewrite forallb_forall in H. apply accepted_b_state_sound. exact (H _ Hin).
 Qed.
+
+(** * A generic way to exhibit concrete runs: if a computed check says that, after a history without per-individual revert
+      on a well-formed graph, every variable reads [Ok _], then every such read is the from-scratch value. *)
+Lemma seq_in_lt n i : In i (seq 0 n) -> i < n.
+Proof. intros H. apply in_seq in H. lia. Qed.
+Lemma lt_in_seq n i : i < n -> In i (seq 0 n).
+Proof. intros H. apply in_seq. lia. Qed.
+
+Theorem all_reads_fresh (V M IX : Type) (g : graph V) (sm : sem V M IX) (ops : list (op V M IX)) :
+  WF g -> forallb (@no_partial_revert V M IX) ops = true ->
+  forallb (fun i => is_ok (snd (step_now g sm (fst (run_now g sm (init_store g) ops)) (Get 0 i)))) (seq 0 (gn g)) = true ->
+  (match nth_error (fst (run_now g sm (init_store g) ops)) 0 with Some _ => true | None => false end) = true ->
+  exists st, nth_error (fst (run_now g sm (init_store g) ops)) 0 = Some st /\
+    forall i, i < gn g -> exists v,
+      snd (step_now g sm (fst (run_now g sm (init_store g) ops)) (Get 0 i)) = Ok v /\ scratch g (values st) i = Some v.
+Proof.
+  intros W H2 H3 H4.
+  destruct (nth_error (fst (run_now g sm (init_store g) ops)) 0) as [st|] eqn:E; [|discriminate H4].
+  exists st. split; [reflexivity|]. intros i Hi.
+  rewrite forallb_forall in H3. specialize (H3 i (lt_in_seq _ _ Hi)).
+  destruct (snd (step_now g sm (fst (run_now g sm (init_store g) ops)) (Get 0 i))) as [v|b| |e] eqn:Er; try discriminate H3.
+  exists v. split; [reflexivity|].
+  exact (never_stale_full_reverts_nomix V M IX g sm W ops H2 0 i st v E Er).
+Qed.
